@@ -53,13 +53,19 @@ def main():
             if not ids or bid in ids:
                 jobs.append((bid, pf, props))
     alarms = 0
+    silent = []
     with cf.ProcessPoolExecutor(12) as ex:
         for label, out in ex.map(run_one, jobs):
+            if not out:
+                silent.append(label)
             print(f"{label:22s} " + ("silent" if not out else ""))
             for line in out:
                 alarms += 1
                 print(f"    {line}")
     print(f"{len(jobs)} patches, {alarms} alarms")
+    if "--write-expected" in sys.argv and not dirs and not ids:
+        json.dump(sorted(silent), open(os.path.join(HERE, "benign", "EXPECTED_SILENT.json"), "w"), indent=0)
+        print(f"wrote benign/EXPECTED_SILENT.json ({len(silent)} patches)")
     sys.exit(1 if alarms else 0)
 
 
